@@ -18,8 +18,9 @@ def cfg_fn(r, i):
     iwt = r.choice([0, 0, 1, 2])
     ts = r.choice([ic, 8, 4, 3]) if iwt else 8
     ib = r.choice([0, 0, 0, 1, 2, 4, ic])
-    return ("indent_columns=%d\nindent_with_tabs=%d\noutput_tab_size=%d\ninput_tab_size=%d\nindent_brace=%d\n" % (ic, iwt, ts, r.choice([4, 8]), ib),
-            "ic%d-iwt%d-ts%d-ib%d" % (ic, iwt, ts, ib))
+    cs = r.choice([0, 0, 1, 2, 3, 5])           # indent_case_shift: moves the 'case' lines only
+    return ("indent_columns=%d\nindent_with_tabs=%d\noutput_tab_size=%d\ninput_tab_size=%d\nindent_brace=%d\nindent_case_shift=%d\n" % (ic, iwt, ts, r.choice([4, 8]), ib, cs),
+            "ic%d-iwt%d-ts%d-ib%d-cs%d" % (ic, iwt, ts, ib, cs))
 
 
 def width(ws, ts):
@@ -38,6 +39,7 @@ def oracle(R, findings):
         return
     vals = rc.cfg_values(R.case.cfg_path, R.case.cfg_text)
     ic, ts, ib = int(vals["indent_columns"]), int(vals["output_tab_size"]), int(vals["indent_brace"])
+    cs = int(vals.get("indent_case_shift", "0"))
     out = R.out.decode("latin1").split("\n")
     if out and out[-1] == "":
         out = out[:-1]
@@ -51,11 +53,11 @@ def oracle(R, findings):
             findings.append(("tokens", "line %d: tokens differ: %r vs %r" % (n + 1, body, " ".join(ln.toks))))
             return
         # closed form: one indent_columns per enclosing block, plus indent_brace per enclosing block that belongs to a statement
-        want = ln.depth * ic + ln.nsb * ib
+        want = ln.depth * ic + ln.nsb * ib + (cs if ln.kind == "case" else 0)
         got = width(ws, ts)
         if got != want:
             findings.append(("indent|%s|d%d" % (ln.kind, ln.depth), "line %d (%s, depth %d, %d statement blocks): leading width %d, expected depth x indent_columns "
-                             "+ blocks x indent_brace = %d: %r" % (n + 1, ln.kind, ln.depth, ln.nsb, got, want, o[:50])))
+                             "+ blocks x indent_brace (+ indent_case_shift on a case line) = %d: %r" % (n + 1, ln.kind, ln.depth, ln.nsb, got, want, o[:50])))
 
 
 def run(rep, build, tier, seed):
